@@ -192,21 +192,38 @@ Definition op_prog (ops : list op) (o : op) (I : inst) : prog (list (list N)) :=
 Definition CC_INVALID_SELECTOR : N := 0x83.
 Definition PROPS : list N := [0; 1; 2; 3; 4].
 
+(* send_message inside a try: what it raises goes to the handler [h] *)
+Fixpoint send_message_e {A} (retry : nat) (r : request) (k : list N -> prog A) (h : err -> prog A) : prog A :=
+  match retry with
+  | O => h RetryError
+  | S n => Send r (fun rp =>
+             match rp with
+             | RBytes d => k d
+             | RRaise (CCError cc) => if cc =? CC_NODE_BUSY then send_message_e n r k h else h (CCError cc)
+             | RRaise e => h e
+             end)
+  end.
+
 Fixpoint gcp_loop (mk : N -> request) (parse : N -> list N -> option err) (ps : list N)
                   (acc : list (N * list N)) : prog (list (N * list N)) :=
   match ps with
   | [] => Ret acc
   | p :: r =>
-      send_message 3 (mk p)
+      (* except CompletionCodeError as e *)
+      let on_err := fun e => match e with
+                             | CCError cc => if cc =? CC_INVALID_SELECTOR then gcp_loop mk parse r acc
+                                             else Raise (CCError cc)
+                             | _ => Raise e
+                             end in
+      send_message_e 3 (mk p)
         (fun d => match check_cc d with
                   | Ok body => match parse p body with
                                | Some e => Raise e
                                | None => gcp_loop mk parse r (acc ++ [(p, body)])
                                end
-                  | Err (CCError cc) => if cc =? CC_INVALID_SELECTOR then gcp_loop mk parse r acc
-                                        else Raise (CCError cc)
-                  | Err e => Raise e
+                  | Err e => on_err e
                   end)
+        on_err
   end.
 Definition get_component_properties mk parse := gcp_loop mk parse PROPS [].
 
@@ -240,6 +257,9 @@ Definition hand_shapes : list (string * list step) := [
                              Call "get_fru_board_area" B; Call "get_fru_product_area" B;
                              Call "get_fru_multirecord_area" B]);
   (* SDR retrieval through pyipmi/helper.py (modelled for C11/C13 in Model/Helper.v, SdrIO.v) *)
+  ("Sdr._get_sdr_chunk", [Other "method reference self.send_message passed as a value";
+                          Other "method reference self.reserve_sdr_repository passed as a value"]);
+  (* the same before fixes/F11b-sdr-same-store-reservation.diff (a C11 finding) *)
   ("Sdr._get_sdr_chunk", [Other "method reference self.send_message passed as a value";
                           Other "method reference self.reserve_device_sdr_repository passed as a value"]);
   ("Sdr.get_repository_sdr", [Other "method reference self.reserve_sdr_repository passed as a value";
@@ -289,17 +309,9 @@ Definition hand_shapes : list (string * list step) := [
 
 Definition qname (o : op) : string := (o_class o ++ "." ++ o_name o)%string.
 
-Fixpoint lookup_shape (l : list (string * list step)) (n : string) : option (list step) :=
-  match l with
-  | [] => None
-  | (k, s) :: r => if String.eqb k n then Some s else lookup_shape r n
-  end.
-
+(* (a name may be recorded with alternative shapes: before / after a repair of another property) *)
 Definition handled (o : op) : bool :=
-  match lookup_shape hand_shapes (qname o) with
-  | Some s => list_eqb step_eqb s (o_steps o)
-  | None => false
-  end.
+  existsb (fun '(k, s) => String.eqb k (qname o) && list_eqb step_eqb s (o_steps o)) hand_shapes.
 
 Definition classified (ops : list op) (o : op) : bool := simple_checked ops o || handled o.
 
